@@ -643,6 +643,25 @@ mod huffman {
             }
         }
 
+        /// Verification hook: the code in which every symbol has `bits` (1..=8) bits and `symbols[k]` has code `k`,
+        /// with the decoding table written down directly (the state that `bits`-bit insertions of all `2^bits`
+        /// symbols produce); the encoding map stays empty.
+        pub fn verif_uniform_table(bits: usize, symbols: &[T]) -> Self {
+            Huffman {
+                encode: BTreeMap::new(),
+                decode: core::array::from_fn(|i| Decode::Symbol(symbols[i >> (8 - bits)].clone(), bits)),
+            }
+        }
+
+        /// Verification hook: the root decoding-table entry `index` as `(symbol, bits)`; `None` for `Void` and
+        /// `Further` entries.
+        pub fn verif_table_entry(&self, index: usize) -> Option<(&T, usize)> {
+            match &self.decode[index] {
+                Decode::Symbol(symbol, bits) => Some((symbol, *bits)),
+                _ => None,
+            }
+        }
+
         /// Verification hook: the real `create_from`.
         pub fn verif_create_from(counts: BTreeMap<T, i64>) -> Self {
             Self::create_from(counts)
@@ -911,6 +930,16 @@ pub mod verif_hooks {
         /// As `from_triples`, decoding table only (the encoding map stays empty).
         pub fn decode_only(triples: &[(B, usize, u64)]) -> Self {
             Code(Huffman::verif_from_triples(triples, false))
+        }
+
+        /// The uniform `bits`-bit code over `symbols` (`symbols[k]` has code `k`), decoding table only.
+        pub fn uniform_table(bits: usize, symbols: &[B]) -> Self {
+            Code(Huffman::verif_uniform_table(bits, symbols))
+        }
+
+        /// Root decoding-table entry `index` as `(symbol, bits)`, `None` for void / nested entries.
+        pub fn table_entry(&self, index: usize) -> Option<(&B, usize)> {
+            self.0.verif_table_entry(index)
         }
 
         /// The code `create_from` yields for empty statistics (empty map, all-void table).
